@@ -653,6 +653,33 @@ def main(argv):
     for f in fails:
         mm = f["mismatch"]
         V.violation("NoStaleRead:" + mm["key"], f)
+    # "which values were read before a mutation never changes what is read after it": the arrays a
+    # mutator leaves behind must not depend on what had been read (and therefore cached) before
+    n_indep = 0
+    sdm = seeds(trimesh)
+    for sname in sorted(sdm):
+        for mu in mutators:
+            for vi, fmu in enumerate(MUTATORS[mu]):
+                a, b = build(trimesh, sdm[sname]), build(trimesh, sdm[sname])
+                for k in keys:
+                    if not k.startswith("q:"):
+                        try:
+                            getattr(b, k)
+                        except BaseException:
+                            pass
+                try:
+                    fmu(a)
+                    fmu(b)
+                except BaseException:
+                    continue
+                n_indep += 1
+                same = (a.vertices.shape == b.vertices.shape and np.allclose(a.vertices, b.vertices, atol=1e-12) and
+                        a.faces.shape == b.faces.shape and np.array_equal(a.faces, b.faces))
+                if not same:
+                    V.violation("ReadsBeforeDoNotChangeData", {"seed_mesh": sname, "mutator": "%s[%d]" % (mu, vi),
+                                                               "vertices_without_reads": list(a.vertices.shape), "vertices_with_reads": list(b.vertices.shape)},
+                                "MergeVerticesUsesCachedNormals" if mu in ("merge", "process") else None)
+    cov["history_independence_cases"] = n_indep
     cov.update({
         "states": states, "transitions": trans,
         "traces_validated_against_impl": nrep + npair,
